@@ -1,9 +1,9 @@
 #!/bin/sh
 # store + evaluate every finished property-preserving change that is not stored yet
 cd /verif
-for d in /tmp/benign-*/_out /tmp/benign2-*/_out /tmp/benign3-*/_out; do
+for d in /tmp/benign-*/_out /tmp/benign2-*/_out /tmp/benign3-*/_out /tmp/benign4-*/_out; do
   [ -d "$d" ] || continue
-  g=$(basename $(dirname $d) | sed "s/benign3-\(.*\)/\1c/; s/benign2-\(.*\)/\1b/; s/benign-//")
+  g=$(basename $(dirname $d) | sed "s/benign4-\(.*\)/\1d/; s/benign3-\(.*\)/\1c/; s/benign2-\(.*\)/\1b/; s/benign-//")
   for k in 1 2 3 4; do
     id="$g-$k"
     [ -f "$d/meta$k.json" ] && [ -f "$d/change$k.diff" ] || continue
